@@ -42,7 +42,8 @@ def parseInput (p : Sexp) : Option Input := do
   | .atom t :: .atom sg :: bits :: rest =>
     let b ← bits.asNat?
     let blocks ← (← p.field? "blocks").args.mapM (fun bl => bl.args.mapM parseSpec)
-    some { T := nm t, kind := ⟨sg == "s", b, rest == [.atom "int"]⟩, blocks }
+    let _ := rest       -- an optional trailing atom (the kind's spelling) is accepted and ignored
+    some { T := nm t, kind := ⟨sg == "s", b⟩, blocks }
   | _ => none
 
 def intsOf (p : Sexp) (key : String) : List Int :=
@@ -146,7 +147,7 @@ def c12Model (i : Input) (q : C12Probes) : List (String × String) :=
   | .skipped => [("exit", "0"), ("file", "none")]
   | .formatError => [("exit", "1")]
   | .file cs =>
-    if !compiles false i.T cs || !i.kind.inConstraint then [("exit", "0"), ("compile", "error")]
+    if !compiles false i.T cs then [("exit", "0"), ("compile", "error")]
     else
       let vm := valueMap i.T cs
       let codec (on : Bool) (tag : String) (rt : Int → Dec) : List (String × String) :=
@@ -204,8 +205,7 @@ def c12Case (id : String) (payload : List Sexp) : List String :=
       jsons := ((p.field? "jsons").map (·.args)).getD [] |>.filterMap parseJsonIn,
       sqls := ((p.field? "sqls").map (·.args)).getD [] |>.filterMap parseSqlIn,
       ints := intsOf p "ints", encs := intsOf p "encs" }
-    let reg := if F_int_constraint i then "F_int_constraint"
-      else if WF i && F_isenum_trunc i.kind i.decl q.ints then "F_isenum_trunc" else region i
+    let reg := if WF i && F_isenum_trunc i.kind i.decl q.ints then "F_isenum_trunc" else region i
     both id (c12Model i q) (c12Spec i q) reg
 
 /-- the out-of-range IsEnum probes of one enum (separate case so that the finding region is narrow) -/
@@ -215,7 +215,7 @@ def c12tCase (id : String) (payload : List Sexp) : List String :=
   | none => err id "bad-enum-case"
   | some i =>
     let ints := intsOf p "ints"
-    let reg := if !WF i || F_int_constraint i then "Out" else if F_isenum_trunc i.kind i.decl ints then "F_isenum_trunc" else "WF"
+    let reg := if !WF i then "Out" else if F_isenum_trunc i.kind i.decl ints then "F_isenum_trunc" else "WF"
     match gen i.T i.blocks with
     | .file cs =>
       both id (ints.map (fun v => (s!"isenum:{v}", toString (isEnum i.kind (valuesT cs) v))))
